@@ -1,6 +1,8 @@
 check("C07", "exploration",
       "Wire.tla gives the session state machine per message class and protocol phase; TLC enumerates every class sequence up to the bound "
       "(no sequence reaches 'crashed') and exports them; each is concretised into bytes and played over TCP, UDP, websocket and an "
-      "embedded backend against a real node in a child process, whose liveness and service to a well-behaved peer are the oracle.",
-      "Class-exhaustive, byte-sampled (the byte space is infinite). Trusted: the class partition; gorilla/websocket and the kernel's UDP/TCP.",
+      "embedded backend against a real node in a child process, whose liveness and service to two well-behaved peers (TCP and UDP: periodic update taken, relayed notice taken, ping answered) are the oracle. "
+      "Beyond single sessions: a cross-session phase (what one session says about a node, then a session as that node), stalled clients of a TLS listener, "
+      "and several sessions sending well-formed traffic about the same things at once against a race-detector build of the node (a report with a map access = a crash).",
+      "Class-exhaustive, byte-sampled (the byte space is infinite). Trusted: the class partition; the race detector's reports; gorilla/websocket and the kernel's UDP/TCP.",
       "TLA+ class/phase state machine, TLC enumeration of class sequences, replay into real node process (B1)", "E1 nodeconf (child process)", "DESIGN.md section 6 C07")
